@@ -6,10 +6,12 @@
      about mathematics / libraries   [laws o] (the ECDSA group laws of Crypto/Ecdsa.v; secp256k1 is one),
                                      n < 2^256, the hash has 32 bytes, the keystore reader yields private
                                      scalars in [1, n-1] ([reader_yields ... key_in_range])
-     about the configuration         0 <= chain <= 2^53 (the quantifier of C01)
-     per submitted transaction       every integer field (including the nonce the backend reported)
-                                     below 2^256, data of at most 2^31-1024 bytes ([fields_in_range]), and
-                                     V in {27, 28} for the one digest signed ([v_legacy_for]; fails with
+     about the configuration         0 <= chain (a chain id discovered through net_version is wrapped to
+                                     int64 and may be negative; C01 speaks about non-negative ids)
+     per submitted transaction       the signed bytes are shorter than 2^64 bytes ([short raw]: every Go slice
+                                     is; it follows from C01's guards "integer fields below 2^256, data of at
+                                     most 2^31-1024 bytes, chain <= 2^53": WithSignerShort.c01_guards_short),
+                                     and V in {27, 28} for the one digest signed ([v_legacy_for]; fails with
                                      probability about 2^-128 on secp256k1: x(kG) >= n)
    The per-transaction guards stand INSIDE the conclusion, in front of "recovers to from": the rest of the
    conclusion (which request, which fields, which nonce, which key file, the bytes are Transaction.Sign's
@@ -21,6 +23,7 @@ From FFS Require Import Base.Res Base.Bytes Rlp.Spec Crypto.Ecdsa.
 From FFS Require Tx.Spec Tx.SignProofs.
 From FFS Require Import Rpc.Json Rpc.Model Rpc.Spec Rpc.ProofsBatch Rpc.Proofs Rpc.ProofsHandler Rpc.WfProofsC09
   Rpc.WithWallet Rpc.WithSigner.
+From FFS Require Rpc.WithSignerShort.
 From FFS Require Secp.Model.
 Import ListNotations.
 Local Open Scope list_scope.
@@ -47,7 +50,7 @@ Section EndToEnd.
   (* the frame [fr] is the submission request [rq] asked for, as the specification prescribes: the first
      parameter decodes to tx, `from` parses to a, the nonce is the supplied or the backend-reported one,
      d is the key of the key file owning a (its address is a, a is listed: key_of_from), the bytes are
-     Transaction.Sign's output for d, and — under C01's guards on d's transaction — they are the
+     Transaction.Sign's output for d, and — when they are shorter than 2^64 bytes and V is 27/28 — they are the
      specification encoding (Tx/Spec.v) of the requested fields with that nonce, in the requested format,
      for the configured chain id, carrying a signature that recovers to a. *)
   Definition submission_specified (s : wstate) (rq : rpc_request) (fr : frame) : Prop :=
@@ -58,14 +61,14 @@ Section EndToEnd.
       key_of_from E c s a d /\ c01_addr o H d = a /\ In a (fs_accounts s) /\
       fr = raw_frame raw /\
       c01_sign o H nonce fuel d (set_nonce tx nonce_used, chain) = Ok raw /\
-      (fields_in_range (set_nonce tx nonce_used) -> v_legacy_for o H nonce fuel d (set_nonce tx nonce_used) chain ->
+      (Tx.SignProofs.short raw -> v_legacy_for o H nonce fuel d (set_nonce tx nonce_used) chain ->
        raw_recovers_to H (secp_ecrecover o H) raw (Z.to_N chain) a
                        (requested_format tx) (requested_fields (set_nonce tx nonce_used))).
 
   Hypothesis L : laws o.
   Hypothesis n_fits : (n o < Secp.Model.two256)%Z.
   Hypothesis H_len : forall x, length (H x) = 32%nat.
-  Hypothesis chain_ok : (0 <= chain <= 2 ^ 53)%Z.
+  Hypothesis chain_ok : (0 <= chain)%Z.
   Hypothesis keys_ok : reader_yields E key_in_range.
 
   (* [signed_by_owner] of Rpc/WithWallet.v (which needs no hypothesis) + C01 *)
@@ -78,12 +81,11 @@ Section EndToEnd.
     pose proof Hk as (Hka & Hin & _). cbn [W.addr_of with_signer] in Hka.
     cbn [W.sign_tx with_signer] in Hsig.
     repeat (split; [assumption|]).
-    intros Hrange Hv.
+    intros Hshort Hv.
     rewrite <- Hka. rewrite <- (requested_format_set_nonce tx nn).
-    apply (c01_signer_sound o H nonce fuel L n_fits H_len); [|exact Hsig].
+    apply (WithSignerShort.c01_signer_sound_short o H nonce fuel L n_fits H_len d _ chain raw); [|exact Hsig|exact Hshort].
     split; [exact (key_of_from_yields E c key_in_range keys_ok fs h a d Hk)|].
-    split; [exact chain_ok|]. split; [|split; assumption].
-    apply to_len_ok_set_nonce. eapply decode_transaction_to_ok; eauto.
+    split; [exact chain_ok|exact Hv].
   Qed.
 
   (* 1. Only-if, per request, in every wallet state. *)
